@@ -2,7 +2,7 @@
 # usage: mutant.sh <patch.diff | -R commit> <ID...>   — applies a patch to a scratch copy of /repo (outside /repo and /verif),
 # checks that it still builds, runs the named checks against the copy, prints their verdicts, removes the copy.
 set -u
-PATCH=$1; shift
+PATCH=$(readlink -f "$1"); shift
 S=${VERIF_SCRATCH:-/var/tmp/verif-scratch.$$}
 rm -rf "$S"; mkdir -p "$S/repo" "$S/verif"
 cp -a /repo/v2 "$S/repo/v2"
